@@ -783,6 +783,7 @@ NextLaneTask:
 
 func (c *Change) abortTasks(tasks []*Task, abortedLanes map[int]bool, seenTasks map[string]bool) {
 	var lanes []int
+	var pending []*Task
 	for i := 0; i < len(tasks); i++ {
 		t := tasks[i]
 		if seenTasks[t.id] {
@@ -791,8 +792,10 @@ func (c *Change) abortTasks(tasks []*Task, abortedLanes map[int]bool, seenTasks 
 		seenTasks[t.id] = true
 		switch taskEffectiveStatus(t) {
 		case DoStatus:
-			// Still pending so don't even start.
-			t.SetStatus(HoldStatus)
+			// Still pending so don't even start. Put on hold only
+			// after the tasks that need undoing were flagged (below),
+			// otherwise the change can look ready in between.
+			pending = append(pending, t)
 		case DoingStatus:
 			// In progress so stop and undo it.
 			t.SetStatus(AbortStatus)
@@ -812,6 +815,9 @@ func (c *Change) abortTasks(tasks []*Task, abortedLanes map[int]bool, seenTasks 
 				tasks = append(tasks, halted)
 			}
 		}
+	}
+	for _, t := range pending {
+		t.SetStatus(HoldStatus)
 	}
 	if len(lanes) > 0 {
 		c.abortLanes(lanes, abortedLanes, seenTasks)
